@@ -191,7 +191,7 @@ def run_history(case, two_d_monitors=False):
         bump('tables_with_permuted_columns')
     pva0_copy = pva0.copy()
     inc_copy = inc.copy()
-    I = Sub(pva0, wa)
+    I = Sub(pva0, np.bool_(wa) if case['seed'] % 3 == 0 else wa)
     fail(check_invariant(I, rng, 'constructor'))
     if repeats:
         bump('histories_with_repeated_stamps')
